@@ -246,7 +246,7 @@ fn check_unchanged(before: &Obs, after: &Obs, what: &str, code: &str, st: &mut S
 }
 
 /// Committed statement: the difference is exactly what the receipt names.
-fn check_commit(before: &Obs, after: &Obs, out: &Outcome, max_seq_seen: u64, st: &mut Stats, ctx: &dyn Fn() -> Value) {
+fn check_commit(before: &Obs, after: &Obs, out: &Outcome, single_clause: bool, max_seq_seen: u64, st: &mut Stats, ctx: &dyn Fn() -> Value) {
     let seq = out.space_seq.unwrap_or(0);
     let tx = out.tx_id.clone().unwrap_or_default();
     let fail = |st: &mut Stats, sig: &str, d: Value| {
@@ -314,6 +314,26 @@ fn check_commit(before: &Obs, after: &Obs, out: &Outcome, max_seq_seen: u64, st:
                         }
                         if ra["seq"].as_u64() != Some(seq) || ra["updated_tx"] != json!(tx) {
                             fail(st, "changed_element_not_stamped_with_this_commit", json!({"id": id, "row_seq": ra["seq"], "row_updated_tx": ra["updated_tx"], "receipt_seq": seq}));
+                        }
+                        // "raises the version of every element it changed": an element whose
+                        // content is what it was (tx.rs: "a no-effect final state changes
+                        // nothing") is not a changed element. Change detection is per clause, so
+                        // a block may go a -> b -> a; asserted for one-clause statements only.
+                        if let Some(rb) = eb.get(id).filter(|r| r["state"] != "pending") {
+                            let unstamped = |r: &Value| {
+                                let mut r = r.clone();
+                                for k in ["version", "seq", "updated_at", "updated_tx", "origin"] {
+                                    r[k] = Value::Null;
+                                }
+                                canon(&r)
+                            };
+                            if unstamped(rb) == unstamped(ra) {
+                                if single_clause {
+                                    fail(st, "version_raised_without_a_change", json!({"id": id, "before": rb, "after": ra}));
+                                } else {
+                                    st.count("named_elements_with_unchanged_content_in_a_multi_clause_block(measured)");
+                                }
+                            }
                         }
                     }
                     None => {
@@ -458,15 +478,32 @@ fn check_tuple_resolution(before: &Obs, after: &Obs, stmt: &Stmt, out: &Outcome,
     }
     let handles = out.result.get("handles");
     let ea = elements(&after.scan);
-    let merged = |id: &str| ea.get(id).map(|r| r["state"] == "merged").unwrap_or(false);
+    let eb = elements(&before.scan);
+    // a write that names a merged-away Concept is canonicalized to the survivor (documented,
+    // Spec 11.3 / clauses.rs canonicalize): the `merged_into` chain as it stood before the
+    // statement, because ENSURE is planned ahead of a MERGE of the same block
+    let canonical = |id: String| -> String {
+        let mut cur = id;
+        for _ in 0..64 {
+            match eb.get(&cur).and_then(|r| r["merged_into"].as_str()).filter(|m| !m.is_empty()) {
+                Some(next) => cur = next.to_string(),
+                None => break,
+            }
+        }
+        cur
+    };
     let mut groups: BTreeMap<(String, String, String), BTreeSet<String>> = BTreeMap::new();
     let mut namings: BTreeMap<(String, String, String), usize> = BTreeMap::new();
     for (is_assert, h, s, p, o) in &named {
         let (s, o) = (denote(s, &stmt.cmd, handles), denote(o, &stmt.cmd, handles));
-        // a write to a merged Concept is canonicalized to the survivor (documented, §11.3)
-        if merged(&s) || merged(&o) || !s.starts_with("C-") || !o.starts_with("C-") {
-            st.count("tuple_namings_skipped(merged or non-concept endpoint)");
+        if !s.starts_with("C-") || !o.starts_with("C-") {
+            st.count("tuple_namings_skipped(non-concept endpoint)");
             continue;
+        }
+        let (s0, o0) = (s.clone(), o.clone());
+        let (s, o) = (canonical(s), canonical(o));
+        if s != s0 || o != o0 {
+            st.count("tuple_namings_through_a_merged_concept");
         }
         let Some(hid) = handles.and_then(|m| m.get(h)).and_then(|v| v.as_str()) else {
             report_once(st, "C17/identity/tuple_clause_bound_no_handle", || json!({"handle": h, "context": ctx()}));
@@ -491,7 +528,6 @@ fn check_tuple_resolution(before: &Obs, after: &Obs, stmt: &Stmt, out: &Outcome,
             });
         }
         // the tuple existed before: it is that element
-        let eb = elements(&before.scan);
         let prior: Vec<&String> = eb
             .iter()
             .filter(|(id, r)| id.starts_with("P-") && r["state"] != "pending" && r["space"] == DEFAULT_SPACE)
@@ -643,7 +679,7 @@ async fn seq_case_async(case: u64, rng: &mut Rng, st: &mut Stats, n_stmts: usize
             } else {
                 st.count("stmt_committed_no_effect");
             }
-            check_commit(&before, &after, &out, max_seq, st, &cx);
+            check_commit(&before, &after, &out, stmt.kinds.len() == 1, max_seq, st, &cx);
             check_tuple_resolution(&before, &after, &stmt, &out, st, &cx);
             max_seq = max_seq.max(out.space_seq.unwrap_or(0));
         } else if out.succeeded {
@@ -660,10 +696,18 @@ async fn seq_case_async(case: u64, rng: &mut Rng, st: &mut Stats, n_stmts: usize
             }
             // two clauses of one block naming one tuple resolve to one element; they do not
             // collide with each other on the tuple's identity
-            if out.error_code == "IdentityConflict" && out.error_message.contains("tuple") && names_a_tuple_twice(&stmt) {
-                report_once(st, "C17/identity/same_tuple_twice_in_one_block_collides", || {
-                    json!({"what": "a statement naming one proposition tuple in two clauses was refused for an identity conflict with itself", "context": cx()})
-                });
+            // (nor with the element that already is that tuple: writers are exclusive, so there is
+            // no race that could make a tuple-identity conflict a legitimate answer)
+            if out.error_code == "IdentityConflict" && out.error_message.contains("tuple") {
+                if names_a_tuple_twice(&stmt) {
+                    report_once(st, "C17/identity/same_tuple_twice_in_one_block_collides", || {
+                        json!({"what": "a statement naming one proposition tuple in two clauses was refused for an identity conflict with itself", "context": cx()})
+                    });
+                } else {
+                    report_once(st, "C17/identity/tuple_clause_collides_instead_of_resolving", || {
+                        json!({"what": "a statement naming a proposition tuple was refused for a tuple-identity conflict instead of resolving to the one element of that tuple", "context": cx()})
+                    });
+                }
             }
             check_unchanged(&before, &after, "refused", &out.error_code, st, &cx);
         }
@@ -716,6 +760,11 @@ fn spaces_case(case: u64, rng: &mut Rng, st: &mut Stats, rounds: usize) {
             let cx = || json!({"case": case, "log": log});
             if !out.committed() {
                 st.count(&format!("spaces_ensure_refused:{}", out.error_code));
+                if out.error_code == "IdentityConflict" {
+                    report_once(st, "C17/identity/tuple_clause_collides_instead_of_resolving", || {
+                        json!({"what": "ENSURE PROPOSITION was refused for an identity conflict instead of resolving", "error": out.error_message, "context": cx()})
+                    });
+                }
                 continue;
             }
             let Some(id) = out.handle("p") else {
@@ -1013,7 +1062,7 @@ fn main() {
     run.assume("crash model: each object-store mutation is atomic, the sequence is interruptible anywhere; partial commits at a crash are measured, not asserted (tx.rs documents no write-ahead log)");
     let t = run.tier;
     if run.wants("seq") {
-        run.parallel("seq", t.pick(140, 5000), 0.6, |c, rng, st| seq_case(c, rng, st, t.pick(16, 18)));
+        run.parallel("seq", t.pick(120, 4000), 0.6, |c, rng, st| seq_case(c, rng, st, t.pick(16, 18)));
     }
     if run.wants("spaces") {
         run.parallel("spaces", t.pick(16, 300), 0.2, |c, rng, st| spaces_case(c, rng, st, 24));
@@ -1021,10 +1070,10 @@ fn main() {
     if run.wants("vis") {
         // every second case has no PREVIEW among the writer's statements: pending rows seen by a
         // reader there would come from a committing or refused statement
-        run.parallel("vis", t.pick(16, 160), 0.4, |c, rng, st| vis_case(c, rng, st, t.pick(40, 120), c % 2 == 0));
+        run.parallel("vis", t.pick(16, 120), 0.4, |c, rng, st| vis_case(c, rng, st, t.pick(40, 120), c % 2 == 0));
     }
     if run.wants("crash") {
-        run.parallel("crash", t.pick(12, 80), 0.9, |c, rng, st| crash_case(c, rng, st, t.pick(5, 7), t.pick(40, 100000)));
+        run.parallel("crash", t.pick(12, 80), 0.9, |c, rng, st| crash_case(c, rng, st, t.pick(5, 7), t.pick(40, 1500)));
     }
     drain_reports(&mut run);
     run.floor("stmt_committed", 200);
@@ -1050,9 +1099,11 @@ fn main() {
     run.floor("oracle_same_tuple_twice_in_one_block_resolves_to_one", 30);
     run.floor("oracle_tuple_clause_resolves_to_its_tuple", 300);
     run.floor("oracle_existing_tuple_resolves_to_the_existing_element", 50);
-    for k in ["clause:ensure_hit", "clause:upsert_hit", "clause:upsert_miss", "clause:update_again", "clause:supersede", "clause:merge", "clause:assert_sugar", "retries_of_identical_request"] {
+    for k in ["clause:ensure_hit", "clause:upsert_hit", "clause:upsert_miss", "clause:supersede", "clause:merge", "clause:assert_sugar", "retries_of_identical_request"] {
         run.floor(k, 10);
     }
+    // rarer by construction (needs an earlier clause of the block that touched a Concept)
+    run.floor("clause:update_again", 6);
     run.floor_set("refusal_class_x_position", 30);
     run.floor("spaces_same_tuple_present_in_both_spaces", 20);
     run.floor("spaces_ensure_hit", 50);
